@@ -40,6 +40,12 @@ CHECKS = {
  "C19": dict(cat="exploration", tech="runtime monitoring: position oracle by construction (the generator knows the line of every construct) over faults inserted at every command line, and failing prints at call depth 0-3",
    text="23 parse-fault kinds inserted as a line of their own before every command line of generated multi-line files: the error must carry the file name, a line inside the input, the fault's line (single-line faults) or a later one (unterminated constructs), and show file:line in its text. Render errors at call depth 0-3 across files, plain or inside blocks and quoted attribute expressions, must carry the entry template's file and the line of the failing command (or its enclosing block command) there.",
    note="'Outermost command whose execution failed' is read as the failing command or an enclosing block command in the entry template.", ref="DESIGN.md §6 C19"),
+ "C08": dict(cat="exploration", tech="runtime monitoring: deep structural digest (reflect walk incl. unexported fields and pointer identities) of registry, data, $ij and message bundle before/after every operation of a history, plus golden outputs from fresh compiles",
+   text="Histories of 20-200 operations (renders of any template with valid, empty and hostile data, with/without $ij and translations; JS generation ES5/ES6; Generator.WriteFile) over one compiled bundle: after every operation the digests of the compiled bundle, every data map, $ij and the message bundle must be unchanged, and the operation must return exactly what it returns on a freshly compiled bundle. One worker process per registry configuration (default, obligatory directives, custom function/directive).",
+   note="Pointer values are used as identities (Go's heap does not move objects).", ref="DESIGN.md §6 C08"),
+ "C09": dict(cat="exploration", tech="Go race detector (-race build of the worker, reports read from the race log, only those with a frame of the code under test count) over concurrent stanzas, plus per-operation comparison with sequential results",
+   text="G goroutines x R operations (renders of the same and other templates, JS generation, compilation of an independent bundle, parse.Expr+EvalExpr) share one Tofu, data maps, $ij and message bundle under GOMAXPROCS 2/4/16 with hook-driven scheduler yields; the race detector must report nothing inside the code under test and every concurrent result must equal the sequential one. Evidence counts distinct interleaving signatures and overlapping operations; a deliberately racy probe in the harness proves the detector and its log are live.",
+   note="Only the interleavings produced are explored; races on paths the workload does not execute are invisible.", ref="DESIGN.md §6 C09"),
 }
 PENDING = "check not built yet (planned with runtime monitoring, see DESIGN.md §6); not claimed"
 props = [json.loads(l)['id'] for l in open('/verif/properties.jsonl')]
